@@ -602,6 +602,8 @@ def build():
     # each table keeps its own style list (structural obligation on add_table, shared with C03)
     from contracts.shared_ground import added_table_owns_every_keyed_list
     plan.ground.append(("added-table-owns-every-keyed-list", added_table_owns_every_keyed_list))
+    from contracts.shared_ground import allocators_are_not_memoised
+    plan.ground.append(("allocators-are-not-memoised", allocators_are_not_memoised))
     plan.bounded.append(BoundedStandIn(
         "styles-of-two-tables", "c15_two_tables.py", [],
         bound="2 documents (a table added to the same sheet / to a new sheet): styles and data formats on cells of both tables, more of them after the first "
